@@ -9,6 +9,7 @@ FS_BANDS = [
     (64, (4, 8)), (64, (6, 14)), (100, (8, 12)), (100, (6, 14)), (128, (8, 12)), (128, (13, 30)),
     (250, (8, 12)), (250, (13, 30)), (250, (4, 8)), (500, (8, 12)), (500, (13, 30)), (1000, (13, 30)),
     (62.5, (4, 8)), (187.5, (8, 12)),
+    (500, (70, 100)), (1000, (65, 90)),          # high gamma: a cycle of the low band edge is shorter than 1/60 s (absolute time constants show)
 ]
 KINDS = ['sine_bursts', 'asym', 'powerlaw_osc', 'two_osc', 'chirp', 'quantised', 'clipped', 'zeroed', 'dc_offset',
          'noisy_flat']
@@ -130,11 +131,15 @@ def option_set(rng, fs, f_range, k):
         if route in (0, 2):
             th['min_n_cycles'] = int(rng.integers(1, 5))
         if route in (1, 2):
-            bk['min_n_cycles'] = int(rng.integers(1, 5))
+            bk['min_n_cycles'] = int(rng.integers(0, 5))          # 0 is a value like any other: "given" is decided by presence, not by truth
         if k % 9 == 4:
             bk['min_burst_duration'] = float(rng.choice([0.1, 0.25]))
         if k % 13 == 6:
             bk['filter_kwargs'] = {'n_cycles': 4}
+        if k % 17 == 8:
+            bk = {k_: v_ for k_, v_ in bk.items() if k_ == 'min_n_cycles' and k % 2}          # empty (or nearly empty) burst options: the amplitude thresholds default to (1, 2)
+        if k % 19 == 11:
+            th = {}                                                                               # empty thresholds: burst_fraction_threshold defaults to 1
         opts['threshold_kwargs'] = th
         opts['burst_kwargs'] = bk
     return opts
